@@ -35,7 +35,7 @@ class Ob:
     def __init__(self, name, harness, srcs=(), defs=(), unwind=1, unwindset=(), replace=(), lib=None,
                  flags=(), drop_checks=(), witness=True, budget=None, tier='quick', functions=(),
                  bounds='', assumptions=(), stubs=(), mask=(), replay=True, mem_gb=12, inc=(),
-                 witness_defs=(), no_base_defs=False, solver='kissat', gen=None, nosimplify=False):
+                 witness_defs=(), no_base_defs=False, solver='kissat', gen=None, nosimplify=False, memwords=64):
         self.name, self.harness, self.srcs, self.defs = name, harness, list(srcs), list(defs)
         self.unwind, self.unwindset, self.replace, self.lib = unwind, list(unwindset), list(replace), lib
         self.flags, self.drop_checks, self.witness, self.budget = list(flags), list(drop_checks), witness, budget
@@ -43,6 +43,7 @@ class Ob:
         self.assumptions, self.stubs, self.mask, self.replay = list(assumptions), list(stubs), list(mask), replay
         self.mem_gb, self.inc, self.witness_defs, self.no_base_defs, self.solver = mem_gb, list(inc), list(witness_defs), no_base_defs, solver
         self.gen = gen
+        self.memwords = memwords  # largest mem* size in 4-byte words (loop bound of the wrappers in vt_mem_impl.c)
         # cbmc 6.11's expression simplifier mis-reads `row[sym]` when row points at a constant row >= 1 of a top-level
         # multi-dimensional byte array (repro: findings/cbmc_2d_array_simplifier_bug.c); harnesses that read such tables
         # through row pointers run with --no-simplify (slower, sound)
@@ -104,7 +105,7 @@ class Runner:
         return known
 
     # ---------- build ----------
-    def cc_args(self, ob, extra_defs=(), gendir=None):
+    def cc_args(self, ob, extra_defs=(), gendir=None, native=False):
         cfg = os.path.join(VERIF, 'harness', 'cfg')
         a = ['-I' + os.path.join(VERIF, x) for x in ob.inc]
         gd = gendir or getattr(ob, '_gendir', None)
@@ -115,6 +116,8 @@ class Runner:
         if not ob.no_base_defs:
             a += BASE_DEFS
         a += ob.defs + list(extra_defs)
+        if not native:
+            a += ['-include', os.path.join(VERIF, 'harness', 'vt_mem.h')]
         return a
 
     def build(self, ob, d, witness):
@@ -127,7 +130,7 @@ class Runner:
         extra = (['-DWITNESS'] + ob.witness_defs) if witness else []
         gb = os.path.join(d, 'h.gb')
         harness = os.path.join(VERIF, 'harness', ob.harness)
-        srcs = [os.path.join(REPO, s) for s in ob.srcs]
+        srcs = [os.path.join(REPO, s) for s in ob.srcs] + [os.path.join(VERIF, 'harness', 'vt_mem_impl.c')]
         if ob.lib:
             # unit under test compiled and instrumented first; harness linked afterwards so that the
             # harness's own call reaches the real body (DESIGN 0.2)
@@ -176,25 +179,56 @@ class Runner:
         return gb, ''
 
     def loops(self, gb):
+        """[(loop id, file, line)]"""
         rc, o, e, _, _ = sh(['goto-instrument', '--show-loops', gb])
-        return re.findall(r'^Loop (\S+):', o, re.M)
+        res = []
+        for m in re.finditer(r'^Loop (\S+):\n\s+file (\S+) line (\d+)', o, re.M):
+            res.append((m.group(1), m.group(2), int(m.group(3))))
+        return res
+
+    _src_cache = {}
+
+    def src_line(self, f, n):
+        if f not in self._src_cache:
+            try:
+                self._src_cache[f] = open(f, errors='replace').read().split('\n')
+            except OSError:
+                self._src_cache[f] = []
+        L = self._src_cache[f]
+        return L[n - 1] if 0 < n <= len(L) else ''
 
     def unwindset(self, ob, gb):
-        """entries 'function:N' bound every loop of that function (robust against loop renumbering when
-        the source changes); entries 'function.K:N' bound one loop"""
-        fn = {}
-        exact = {}
-        for u in ob.unwindset:
+        """entries: 'function:N'         bounds every loop of that function (robust against loop
+                                          renumbering when the source changes);
+                    'function@regex:N'   bounds the loops of that function whose source line matches regex (also robust);
+                    'function.K:N'       bounds one loop by cbmc's index;  'rec:function:N' bounds recursion depth"""
+        fn, exact, pat = {}, {}, []
+        # defaults for the symbolic-size-safe mem wrappers (vt_mem_impl.c)
+        defaults = ['%s@>=4:%d' % (f, ob.memwords + 1) for f in ('vt_memcpy', 'vt_memset')] + \
+                   ['%s@off<n:5' % f for f in ('vt_memcpy', 'vt_memset')] + ['vt_memmove:%d' % (4 * ob.memwords + 1)]
+        for u in list(ob.unwindset) + defaults:
             k, v = u.rsplit(':', 1)
-            if re.search(r'\.\d+$', k):
+            if '@' in k:
+                f, rx = k.split('@', 1)
+                pat.append((f, re.compile(rx), v))
+            elif re.search(r'\.\d+$', k):
                 exact[k] = v
             else:
                 fn[k] = v
         out = dict(exact)
-        if fn:
-            for l in self.loops(gb):
+        for f in list(fn):
+            if f.startswith('rec:'):      # 'rec:function:N' = recursion depth bound (cbmc wants the bare function name)
+                out[f[4:]] = fn.pop(f)
+        if fn or pat:
+            for l, file, line in self.loops(gb):
                 f = l.rsplit('.', 1)[0]
-                if f in fn and l not in out:
+                if l in exact:
+                    continue
+                txt = self.src_line(file, line)
+                hit = [v for (pf, rx, v) in pat if pf == f and rx.search(txt)]
+                if hit:
+                    out[l] = hit[0]
+                elif f in fn:
                     out[l] = fn[f]
         return ['%s:%s' % kv for kv in out.items()]
 
@@ -263,7 +297,7 @@ class Runner:
         pj = self.parse_json(out)
         if pj is None or pj['results'] is None:
             txt = (out[-1500:] + errt[-1500:])
-            r['status'] = 'inconclusive' if re.search(r'bad_alloc|out of memory|Killed|MemoryError|SAT checker inconclusive|cannot allocate', txt, re.I) or rc in (-6, -11, 134, 137, 139) else 'error'
+            r['status'] = 'inconclusive' if re.search(r'bad_alloc|out of memory|Killed|MemoryError|SAT checker inconclusive|cannot allocate', txt, re.I) or rc in (6, -6, -11, 134, 137, 139) else 'error'
             r['detail'] = 'rc=%d %s' % (rc, txt)
             return r
         r['vars'], r['clauses'] = pj.get('vars'), pj.get('clauses')
@@ -282,7 +316,7 @@ class Runner:
                            function=sl.get('function', ''), status=p['status'])
                 if any(m.search(desc) for m in masks):
                     masked.append(ent)
-                elif desc.startswith('unwinding assertion') or desc.startswith('recursion unwinding assertion'):
+                elif 'unwinding assertion' in desc:
                     unw.append('%s (%s:%s)' % (desc, sl.get('function', ''), sl.get('line', '')))
                 else:
                     fails.append(ent)
@@ -311,7 +345,8 @@ class Runner:
             return r
         budget = ob.budget or (QUICK_BUDGET if self.tier == 'quick' else THOROUGH_BUDGET)
         env = dict(os.environ, TMPDIR=d)
-        cmd = self.cbmc_cmd(ob, gb, True)
+        do_replay = ob.replay and not ob.replace and not ob.lib
+        cmd = self.cbmc_cmd(ob, gb, True, trace=do_replay)
         rc, out, errt, secs, rss = sh(cmd, timeout=budget, mem_gb=ob.mem_gb, cwd=d, env=env)
         r['seconds'] = round(secs, 1)
         if rc == -9:
@@ -320,7 +355,7 @@ class Runner:
         pj = self.parse_json(out)
         if pj is None or pj['results'] is None:
             r['detail'] = 'rc=%d %s' % (rc, (out[-800:] + errt[-800:]))
-            r['status'] = 'inconclusive' if rc in (-6, -11, 134, 137, 139) else 'error'
+            r['status'] = 'inconclusive' if (rc in (6, -6, -11, 134, 137, 139) or re.search(r'Out of memory|bad_alloc', out + errt)) else 'error'
             return r
         w = [p for p in pj['results'] if p.get('description') == 'WITNESS']
         if not w:
@@ -328,7 +363,33 @@ class Runner:
             return r
         r['status'] = 'reached' if all(p['status'] == 'FAILURE' for p in w) else 'vacuous'
         r['goals'] = len(w)
+        r['replayed'] = 'n/a'
+        if do_replay and r['status'] == 'reached' and 'trace' in w[0]:
+            # validate the encoding against the implementation: the witness execution found by the solver must reach the same
+            # goal when the harness is compiled natively against the real sources and fed the trace's inputs
+            vals = self.trace_inputs(w[0]['trace'])
+            inp = os.path.join(d, 'witness.inputs')
+            with open(inp, 'w') as f:
+                f.write(' '.join('%x' % v for v in vals) + '\n')
+            kind, txt = self.native_replay(ob, inp, d, extra=['-DWITNESS'] + ob.witness_defs)
+            ok = kind == 'reproduced' and 'WITNESS' in txt and 'AddressSanitizer' not in txt and 'runtime error' not in txt
+            r['replayed'] = 'ok' if ok else 'mismatch'
+            if not ok:
+                r['replay_detail'] = txt[-600:]
         return r
+
+    @staticmethod
+    def trace_inputs(trace):
+        vals = []
+        for s in trace:
+            if s.get('stepType') != 'assignment' or s.get('hidden'):
+                continue
+            fn = s.get('sourceLocation', {}).get('function', '')
+            if s.get('lhs') == 'v' and fn in ('vt_int', 'vt_uint', 'vt_short', 'vt_char', 'vt_uchar', 'vt_float'):
+                b = s['value'].get('binary')
+                if b is not None:
+                    vals.append(int(b, 2))
+        return vals
 
     # ---------- counterexample handling ----------
     def extract_and_replay(self, ob, mr):
@@ -399,7 +460,7 @@ class Runner:
                                 kind=kind, path=base + '.txt', inputs=base + '.inputs'))
         return results
 
-    def native_replay(self, ob, inputs, d):
+    def native_replay(self, ob, inputs, d, extra=()):
         exe = os.path.join(d, 'replay.exe')
         harness = os.path.join(VERIF, 'harness', ob.harness)
         srcs = [os.path.join(REPO, s) for s in ob.srcs]
@@ -407,7 +468,7 @@ class Runner:
             return 'unreplayed', 'two-part (contract-instrumented) harness: no native replay'
         if ob.replace:
             return 'unreplayed', 'call-replaced harness: no native replay'
-        cmd = ['gcc', '-O0', '-g', '-w', '-no-pie', '-Wl,--unresolved-symbols=ignore-all', '-fsanitize=address,undefined', '-fno-sanitize-recover=undefined', '-DVT_REPLAY'] + self.cc_args(ob) + \
+        cmd = ['gcc', '-O0', '-g', '-w', '-no-pie', '-Wl,--unresolved-symbols=ignore-all', '-fsanitize=address,undefined', '-fno-sanitize-recover=undefined', '-DVT_REPLAY'] + list(extra) + self.cc_args(ob, native=True) + \
               [harness, os.path.join(VERIF, 'harness', 'replay_main.c')] + srcs + ['-lm', '-o', exe]
         rc, o, e, _, _ = sh(cmd)
         if rc != 0:
@@ -446,6 +507,8 @@ class Runner:
         broken, violations, known_hits, inconclusive = [], [], [], []
         samples = []
         n_eval = n_props = n_proved = n_nontrivial = 0
+        n_vars = n_clauses = n_validated = 0
+        mismatches = []
         solver_s = 0.0
         for o in sel:
             m = results[(o.name, 'main')]
@@ -465,6 +528,13 @@ class Runner:
             if m['status'] == 'inconclusive' or (w and w['status'] == 'inconclusive'):
                 inconclusive.append(o.name)
                 log('INCONCLUSIVE %s %s' % (o.name, m.get('detail', '')[:200]))
+            n_vars += m.get('vars') or 0
+            n_clauses += m.get('clauses') or 0
+            if w and w.get('replayed') == 'ok':
+                n_validated += 1
+            if w and w.get('replayed') == 'mismatch':
+                mismatches.append(o.name)
+                log('WITNESS-REPLAY-MISMATCH %s: the witness execution found by the solver does not reach the goal natively: %s' % (o.name, w.get('replay_detail', '')[-300:].replace('\n', ' | ')))
             ok_w = (w is None) or w['status'] == 'reached'
             if m['status'] in ('proved', 'failed'):
                 n_props += m['props']
@@ -491,7 +561,8 @@ class Runner:
                                 unwindset=o.unwindset, stubs=o.stubs, assumptions=o.assumptions, status=m['status'],
                                 witness=(w['status'] if w else 'none'), properties=m.get('props', 0), proved=m.get('proved', 0),
                                 masked=len(m.get('masked', [])), variables=m.get('vars'), clauses=m.get('clauses'),
-                                solver=o.solver, seconds=m.get('seconds', 0), witness_seconds=(w.get('seconds', 0) if w else 0)))
+                                solver=o.solver, seconds=m.get('seconds', 0), witness_seconds=(w.get('seconds', 0) if w else 0),
+                                witness_replayed_natively=(w.get('replayed') if w else 'n/a')))
         for kf, c in known_hits:
             log('KNOWN-FINDING: property=%s %s [%s at %s]' % (self.prop, kf['what'], c['desc'], c['loc']))
         seenv = set()
@@ -505,6 +576,7 @@ class Runner:
         for b in broken:
             log('CHECK-BROKEN ' + b)
         wall = time.time() - t0
+        self.extra_cov = dict(states=n_vars, transitions=n_clauses, traces_validated_against_impl=n_validated, witness_replay_mismatches=mismatches)
         self.write_evidence(sel, samples, n_eval, n_nontrivial, n_props, n_proved, len(seenv), wall, solver_s, inconclusive, broken)
         log('%s tier=%s: %d obligations, %d proved+witnessed, %d CBMC properties (%d proved), %d inconclusive, %d violations, %.0fs wall, %.0fs solver' % (
             self.prop, self.tier, len(sel), n_nontrivial, n_props, n_proved, len(inconclusive), len(seenv), wall, solver_s))
@@ -538,8 +610,12 @@ class Runner:
                                 obligations=n_props, discharged=n_proved, samples=samples,
                                 checker_cmd='goto-cc + cbmc 6.11 --unwinding-assertions --signed-overflow-check --undefined-shift-check (kissat back end)',
                                 solver_seconds=round(solver_s, 1), inconclusive=inconclusive, broken=broken[:10],
-                                outside_claim=getattr(mod, 'OUTSIDE', ''), exhaustive=False),
+                                outside_claim=getattr(mod, 'OUTSIDE', ''), exhaustive=False,
+                                states_transitions_meaning='states = propositional variables, transitions = clauses of the SAT encodings of the symbolic executions decided in this run (summed over harnesses); traces_validated_against_impl = witness executions found by the solver that reached the same goal when replayed natively (gcc, ASan/UBSan) against the real sources'),
                   assumptions=getattr(mod, 'ASSUMPTIONS', []), wall_s=round(wall, 1), violations=nviol)
+        ev['coverage'].update(self.extra_cov)
+        ev['coverage']['states'] = max(1, ev['coverage']['states'])
+        ev['coverage']['transitions'] = max(1, ev['coverage']['transitions'])
         os.makedirs(os.path.join(VERIF, 'evidence'), exist_ok=True)
         path = os.path.join(VERIF, 'evidence', self.prop + '.json') if not self.only else os.path.join(self.scratch, 'partial-evidence.json')
         with open(path, 'w') as f:
